@@ -43,10 +43,11 @@ os.makedirs(OUT)
 add("calc_lr", T + "from_file/calculator.rustemo",
     sentences=["2 + 3 / 4 + 5", "1", "1 + 2", "7 - 2 * 3 / 4 + 1", "1.5 * 2.25"],
     files=[T + "from_file/input1.calc"], invalid=["2 + 3 + 5 +", "+ 1"])
-add("calc_err", T + "errors/syntax_errors/calc.rustemo", sentences=["2 + 3 / 4 + 5"], invalid=["2 + 3 + 5 +"])
+# both test inputs of this grammar are error tests ('/' is not in the grammar)
+add("calc_err", T + "errors/syntax_errors/calc.rustemo", sentences=["2 + 3 + 5", "1"], invalid=["2 + 3 / 4 + 5", "2 + 3 + 5 +"])
 add("json", REPO + "/examples/json/src/json.rustemo",
     files=[REPO + f"/examples/json/src/example{i}.json" for i in range(1, 6)] + [T + "builder/loc_info/loc_info.json"],
-    sentences=['{"a": [1, 2, {"b": null}], "c": "x y"}', "[]", "{}", '[true, false, null, -1.5e3, "s"]'],
+    sentences=['{"a": [1, 2, {"b": null}], "c": "x y"}', "[]", "{}", '[true, false, null, 1.5, "s"]'],
     invalid=['{"a": }', "[1, 2", '{"a" 1}'],
     w_reason="string regex may contain whitespace only between the quotes it requires")
 
